@@ -18,14 +18,18 @@ Definition concat_src_ok (a : op) : bool :=
   | _ => true
   end.
 (* m = the dialect merges extends at SQL level (allow_extend_merges); a WINDOWED extend is covered when it does not *)
-Fixpoint stage1 (m : bool) (p : op) : bool :=
+Definition join_covered (d : dialect) (fl : flavor) (jt : jointype) : bool :=
+  d_join_carry d && negb (f_join_null_match fl) &&
+  match jt with JRight => negb (d_rewrite_right d) | JFull => negb (d_rewrite_full d) | _ => true end.
+
+Fixpoint stage1 (m : bool) (jok : jointype -> bool) (p : op) : bool :=
   match p with
   | OTable _ _ => true
-  | OExtend s _ wd w => stage1 m s && (if wd then negb m else window_is_empty w)
-  | OSelectRows s _ | OSelectCols s _ | ODropCols s _ | ORename s _ | OMapCols s _ _ | OOrder s _ _ _ => stage1 m s
-  | OConcat a b idc _ _ => stage1 m a && stage1 m b && match idc with Some _ => concat_src_ok a && concat_src_ok b | None => true end
-  | OProject s ops gb => stage1 m s && negb (is_nil gb && is_nil ops)       (* the builder: "project must have ops or group_by" *)
-  | OJoin _ _ _ _ _ => false
+  | OExtend s _ wd w => stage1 m jok s && (if wd then negb m else window_is_empty w)
+  | OSelectRows s _ | OSelectCols s _ | ODropCols s _ | ORename s _ | OMapCols s _ _ | OOrder s _ _ _ => stage1 m jok s
+  | OConcat a b idc _ _ => stage1 m jok a && stage1 m jok b && match idc with Some _ => concat_src_ok a && concat_src_ok b | None => true end
+  | OProject s ops gb => stage1 m jok s && negb (is_nil gb && is_nil ops)       (* the builder: "project must have ops or group_by" *)
+  | OJoin a b _ _ jt => stage1 m jok a && stage1 m jok b && jok jt
   end.
 
 (* every table description of p is bound to a stored table with exactly the declared columns *)
@@ -35,7 +39,7 @@ Definition wf_env (e : env) (p : op) : Prop :=
 Lemma window_empty_is w : window_is_empty w = true -> w = no_window.
 Proof. destruct w as [[|a p] [|b o] [|c r]]; try discriminate. reflexivity. Qed.
 
-Lemma stage1_cols_nonempty mg p : builder_ok p = true -> stage1 mg p = true -> column_names p <> [].
+Lemma stage1_cols_nonempty mg jok p : builder_ok p = true -> stage1 mg jok p = true -> column_names p <> [].
 Proof.
   induction p as [n cs|s IH ops wd w|s IH ops gb|s IH x|s IH cs|s IH ds|s IH m|s IH m dels|s IH cs rev lim|a IHa b IHb on_a on_b jt|a IHa b IHb idc an bn];
     intros BO St; simpl in St; try discriminate.
@@ -51,6 +55,8 @@ Proof.
   - destruct (bok_rename _ _ BO) as [BOs _]. specialize (IH BOs St). simpl. destruct (column_names s); [congruence|discriminate].
   - simpl in BO. rewrite !andb_true_iff in BO. destruct BO as [_ B]. intros X. simpl in X. rewrite X in B. discriminate.
   - apply bok_order in BO. exact (IH BO St).
+  - rewrite !andb_true_iff in St. destruct St as [[Sa _] _]. destruct (bok_join _ _ _ _ _ BO) as [BOa _]. specialize (IHa BOa Sa).
+    simpl. destruct (column_names a); [congruence|discriminate].
   - rewrite !andb_true_iff in St. destruct St as [[Sa _] _]. destruct (bok_concat _ _ _ _ _ BO) as [BOa _]. specialize (IHa BOa Sa).
     simpl. destruct (column_names a); [congruence|discriminate].
 Qed.
